@@ -264,6 +264,7 @@ def run(prop: str, tier: str, seed: int) -> int:
     vacuous = sum(1 for r in reps for ob in r.get("obligations", []) if ob["prop"] == "ENGINE" and ob["clause"].startswith("vacuous"))
     conc = [r["concolic"] for r in reps if r.get("concolic")]
     validated = 0
+    validated_neg = 0
     mismatches = []
     if conc:
         p = run_venv("rules_tierb.py", ["replay-stdin"], stdin=json.dumps(conc), timeout=1200)
@@ -272,10 +273,12 @@ def run(prop: str, tier: str, seed: int) -> int:
                 for w, o in zip(conc, json.loads(p.stdout)):
                     if not o.get("realised"):
                         continue
-                    if o.get("applicable") is not True:
-                        mismatches.append(f"{w['rule']}: engine says applicable, CPython says not, on `{o.get('input')}` at `{o.get('node')}`")
+                    want = w.get("expect_applicable", True)
+                    if o.get("applicable") is not want:
+                        mismatches.append(f"{w['rule']}: engine says {'applicable' if want else 'not applicable'}, CPython says {o.get('applicable')!r}, on `{o.get('input')}` at `{o.get('node')}`")
                     else:
                         validated += 1
+                        validated_neg += 0 if want else 1
             except json.JSONDecodeError:
                 pass
     for mm in mismatches[:5]:
@@ -306,6 +309,7 @@ def run(prop: str, tier: str, seed: int) -> int:
         "functions_under_contract": FUNCTIONS,
         "samples": samples,
         "traces_validated_against_impl": validated,
+        "of_which_inapplicable_paths": validated_neg,
         "canaries_refuted": len([c for c in canaries if c["status"] == "proved"]),
         "vacuous_paths_never_both_defined": vacuous,
         "bounded": {
